@@ -39,7 +39,8 @@ ObsTerms(j) == [ep |-> j.ep, ldr |-> j.ldr, rem |-> SetOf(j.rem), join |-> SetOf
 ObsX(j) == CASE j.k = "cmd" -> [k |-> "cmd", cmd |-> j.cmd, t |-> ObsTerms(j.t), gf |-> j.gf]
              [] j.k = "pkt" -> [k |-> "pkt", typ |-> j.typ, t |-> ObsTerms(j.t), s |-> ObsTerms(j.s),
                                 claimed |-> j.claimed, skey |-> j.skey, arg |-> j.arg, sarg |-> j.sarg]
-             [] j.k = "exec" -> [k |-> "exec", out |-> j.out]
+             [] j.k = "exec" -> [k |-> "exec", out |-> j.out,
+                                 qual |-> IF "qual" \in DOMAIN j THEN SetOf(j.qual) ELSE AllQual]
              [] OTHER -> [k |-> "time"]
 
 What(x) == CASE x.k = "cmd" -> "cmd-" \o x.cmd [] x.k = "pkt" -> "pkt-" \o x.typ [] x.k = "exec" -> "exec-" \o x.out [] OTHER -> "time"
@@ -71,7 +72,7 @@ StepCall(e) ==
          o == CASE x.k = "cmd" -> CommandOp(tme, cur, fin, exec, tick, x)
                 [] x.k = "pkt" -> IF dup THEN Out("ok", "duplicate packet ignored", cur, fin, exec)
                                   ELSE PacketOp(tme, cur, fin, exec, tick, x)
-                [] x.k = "exec" -> ExecOp(cur, fin, exec, tick, x.out)
+                [] x.k = "exec" -> ExecOpQ(cur, fin, exec, tick, x.out, x.qual)
                 [] OTHER -> TimeOp(cur, fin, exec, tick)
          oc == ObsRec(e.cur)
          of == ObsRec(e.fin)
